@@ -848,7 +848,7 @@ func c16(r *hx.Run) {
 		return
 	}
 	rnd := rand.New(rand.NewSource(r.Seed))
-	n := r.Pick(8, 150)
+	n := r.Pick(8, 400)
 	sem := make(chan struct{}, 8)
 	var wg sync.WaitGroup
 	for i := 0; i < n+8 && !r.TooMany(); i++ {
